@@ -46,7 +46,9 @@ func registerRead(ctx *Context, forward Forward, reg RegisterType, sequenceID in
 		return v
 	}
 
-	if v, exists := ctx.Transaction[reg]; exists {
+	if v, exists := ctx.Transaction[reg]; exists && (sequenceID == 0 || v.sequenceID <= sequenceID) {
+		// Same rule as the RAT path: never a value written by an instruction
+		// following the current instruction
 		return v.value
 	}
 	return ctx.Registers[reg]
